@@ -35,8 +35,11 @@ Definition spec_host (k : epkind) (names : list name) (dflt : name) (wl_return :
 
 (* Domain of the property: real interface names are non-empty and never end in the dataplane's
    wildcard byte (the v3 validator only admits [a-zA-Z0-9_.-]{1,15}). *)
-Definition name_plain (wc : N) (n : name) : bool :=
-  match rev n with [] => false | c :: _ => negb (N.eqb c wc) end.
+Fixpoint name_plain (wc : N) (n : name) : bool :=   (* non-empty and the last byte is not wc *)
+  match n with
+  | [] => false
+  | c :: n' => match n' with [] => negb (N.eqb c wc) | _ => name_plain wc n' end
+  end.
 Definition names_ok (wc : N) (names : list name) : bool := forallb (name_plain wc) names.
 
 (* ---- one correspondence case, as written by the Go harness ---- *)
